@@ -2,6 +2,7 @@
 
 from __future__ import annotations
 
+from ..model import AnalysisError
 from ..report import Cx, Ob, describe, obligation
 from ..rules import component, where
 from ..summ import describe_path
@@ -679,3 +680,36 @@ def x12(cx: Cx, ob: Ob) -> None:
     from ..rules import package_lints
 
     package_lints(cx, ob, {'mapping_service/rdflib_custom.py', 'api.py', 'mapping_service/utils.py', 'mapping_service/api.py'})
+
+
+@obligation("C18-D10", "media-type tables AGREE: every synonym maps a concrete media type (no '*' media range) onto a key of CONTENT_TYPE_TO_RDFLIB_FORMAT; the handler table has the same keys; DEFAULT_CONTENT_TYPE is one of them", floor=3)
+def d10(cx: Cx, ob: Ob) -> None:
+    mod = cx.model.module(U)
+    try:
+        syn = cx.model.const_value(mod, "CONTENT_TYPE_SYNONYMS")
+        fmt = cx.model.const_value(mod, "CONTENT_TYPE_TO_RDFLIB_FORMAT")
+        dflt = cx.model.const_value(mod, "DEFAULT_CONTENT_TYPE")
+    except AnalysisError as e:
+        ob.undecide(f"media-type tables are not foldable constants: {e.reason}")
+        return
+    if not isinstance(syn, dict) or not isinstance(fmt, dict):
+        ob.undecide("media-type tables are not dictionaries")
+        return
+    ob.site(f"src/curies/mapping_service/utils.py {U}.CONTENT_TYPE_SYNONYMS", f"{len(syn)} synonyms")
+    ob.site(f"src/curies/mapping_service/utils.py {U}.CONTENT_TYPE_TO_RDFLIB_FORMAT", f"{len(fmt)} result types")
+    ob.site(f"src/curies/mapping_service/utils.py {U}.DEFAULT_CONTENT_TYPE", repr(dflt))
+    for k, v in syn.items():
+        if "*" in str(k):
+            ob.violate(
+                f"{U}.CONTENT_TYPE_SYNONYMS",
+                "src/curies/mapping_service/utils.py",
+                f"the synonym table maps the media RANGE {k!r} to {v!r}: a wildcard then counts as a supported type of its own, and '*/*;q=0.9, application/sparql-results+json;q=0.5' is answered with {v} instead of the client's highest-q SUPPORTED type",
+                detail=f"wildcard-synonym:{k}",
+            )
+        if v not in fmt:
+            ob.violate(f"{U}.CONTENT_TYPE_SYNONYMS", "src/curies/mapping_service/utils.py", f"synonym {k!r} maps to {v!r}, which is not a supported result type", detail=f"dangling-synonym:{k}")
+    for k in fmt:
+        if "*" in str(k):
+            ob.violate(f"{U}.CONTENT_TYPE_TO_RDFLIB_FORMAT", "src/curies/mapping_service/utils.py", f"{k!r} is a media range, not a result type", detail=f"wildcard-type:{k}")
+    if dflt not in fmt:
+        ob.violate(f"{U}.DEFAULT_CONTENT_TYPE", "src/curies/mapping_service/utils.py", f"the default {dflt!r} is not a supported result type", detail="default-unsupported")
